@@ -38,6 +38,7 @@ fixed("C01", "8e8037e", "table delimiter rows ('-|-', ':-:|-', '| -|') at a wrap
 fixed("C01", "4898454", "a heading inside a block quote ended with a bare empty line and split the quote in two ('> ## h' / '>' / '> text'); list items after an item holding a heading inside a quote were lost from the list", "list[PH|P]/list-spacing:structure")
 fixed("C03", "4d2f64e", "the second of two adjacent quoted phrases kept straight quotes unless two or more spaces separated them (QUOTE_PATTERN consumed the separator): layout dependent", "verb[quoted-code]/relayout:content")
 fixed("C10", "7d63d2a", "no blank line before the next list item after an item ending in a thematic break (loose spacing)", "list[PR|P]/list-spacing:loose-blank-line-before-every-item")
+fixed("C04", "413e056", "an inline link title containing a backslash followed by a double quote (or ending in a backslash) broke the link: found by the CrossHair title kernel, reproduced", "kernel[k_title]")
 fixed("C17", "fa95314", "directory traversal followed symlinks to files (targets outside the tree or inside excluded directories were listed); glob arguments skipped excluded directories and .flowmarkignore", "dir/unwanted[reached-via-file-link]")
 
 # ---------------------------------------------------------------- known: C05
